@@ -292,8 +292,10 @@ impl GlobWalker {
                 for (position, candidate) in path
                     .components()
                     .filter_map(|component| match component {
-                        Component::Normal(component) => Some(CandidatePath::from(component)),
-                        _ => None,
+                        Component::Prefix(_) | Component::RootDir => None,
+                        // Semantic components like `..` in the invariant prefix of the glob are
+                        // present in the path and have corresponding component programs.
+                        component => Some(CandidatePath::from(component.as_os_str())),
                     })
                     .skip(depth)
                     .zip_longest(self.program.components.iter().skip(depth))
